@@ -25,9 +25,15 @@ const N_COMMITTED: u32 = 108;
 
 /// Run `threads` closures as controlled harness threads; returns the controller output.
 fn run_threads<'a>(schedule: &Schedule, abort: Arc<AtomicBool>, threads: Vec<Box<dyn FnOnce() + Send + 'a>>) -> crate::dsched::RunOutput {
+    run_threads_with_setup(schedule, abort, || {}, threads)
+}
+
+/// `setup` runs on the calling thread after the run has begun (alone, holding the baton).
+fn run_threads_with_setup<'a>(schedule: &Schedule, abort: Arc<AtomicBool>, setup: impl FnOnce(), threads: Vec<Box<dyn FnOnce() + Send + 'a>>) -> crate::dsched::RunOutput {
     let ctl = controller();
     let ab = abort.clone();
     ctl.begin_run(schedule, false, Some(Box::new(move || ab.store(true, Ordering::SeqCst))));
+    setup();
     ctl.expect_threads(threads.len());
     std::thread::scope(|scope| {
         let mut hs = Vec::new();
@@ -44,7 +50,9 @@ fn run_threads<'a>(schedule: &Schedule, abort: Arc<AtomicBool>, threads: Vec<Box
         }
         ctl.leave_external();
     });
-    ctl.end_run()
+    let out = ctl.end_run();
+    LAST_WIDTHS.with(|w| *w.borrow_mut() = out.stats.decision_widths.clone());
+    out
 }
 
 fn verdict_failure(v: &Verdict) -> Result<Option<String>, (String, String)> {
@@ -72,8 +80,43 @@ pub enum CursorOp {
 #[derive(Clone, Debug, Serialize, Deserialize)]
 pub struct C15Case {
     pub n: u8,
+    /// operations performed by the harness alone before the threads start
+    #[serde(default)]
+    pub setup: Vec<CursorOp>,
     pub programs: Vec<Vec<CursorOp>>,
     pub schedule: Schedule,
+}
+
+fn c15_op(ctx: &VContext, n: usize, op: &CursorOp) {
+    let ctl = controller();
+    match op {
+        CursorOp::Claim(k) => {
+            for _ in 0..*k {
+                ctl.note(N_CLAIM_START, 0, 0);
+                match ctx.next_validation_idx(n) {
+                    Some(c) => ctl.note(N_CLAIM, c, n),
+                    None => {
+                        ctl.note(N_CLAIM_NONE, 0, 0);
+                        break;
+                    }
+                }
+            }
+        }
+        CursorOp::Rewind(j) => {
+            ctl.note(N_REWIND_START, *j as usize % n, 0);
+            ctx.rewind_validation_to(*j as usize % n);
+        }
+        CursorOp::Publish(i) => {
+            let i = *i as usize % n;
+            ctl.note(N_EXEC_START, i, 0);
+            ctx.executed(i);
+            ctl.note(N_EXEC_DONE, i, 0);
+        }
+        CursorOp::ReadFrontier => {
+            let f = ctx.execution_frontier();
+            ctl.note(N_FRONTIER, f, 0);
+        }
+    }
 }
 
 pub fn eval_c15(case: &C15Case) -> CaseEval {
@@ -93,40 +136,18 @@ pub fn eval_c15(case: &C15Case) -> CaseEval {
                     if abort.load(Ordering::SeqCst) {
                         return;
                     }
-                    match op {
-                        CursorOp::Claim(k) => {
-                            for _ in 0..*k {
-                                ctl.note(N_CLAIM_START, 0, 0);
-                                match ctx.next_validation_idx(n) {
-                                    Some(c) => ctl.note(N_CLAIM, c, n),
-                                    None => {
-                                        ctl.note(N_CLAIM_NONE, 0, 0);
-                                        break;
-                                    }
-                                }
-                            }
-                        }
-                        CursorOp::Rewind(j) => {
-                            ctl.note(N_REWIND_START, *j as usize % n, 0);
-                            ctx.rewind_validation_to(*j as usize % n);
-                        }
-                        CursorOp::Publish(i) => {
-                            let i = *i as usize % n;
-                            ctl.note(N_EXEC_START, i, 0);
-                            ctx.executed(i);
-                            ctl.note(N_EXEC_DONE, i, 0);
-                        }
-                        CursorOp::ReadFrontier => {
-                            let f = ctx.execution_frontier();
-                            ctl.note(N_FRONTIER, f, 0);
-                        }
-                    }
+                    c15_op(ctx, n, op);
                 }
             });
             f
         })
         .collect();
-    let out = run_threads(&case.schedule, abort, threads);
+    let setup_ops = case.setup.clone();
+    let out = run_threads_with_setup(&case.schedule, abort, || {
+        for op in &setup_ops {
+            c15_op(&ctx, n, op);
+        }
+    }, threads);
     match verdict_failure(&out.verdict) {
         Err(f) => {
             ev.failure = Some(f);
@@ -636,4 +657,105 @@ pub fn eval_c17(case: &C17Case) -> CaseEval {
     *ev.hist.entry("steps".into()).or_insert(0) += out.stats.steps;
     ev.nontrivial = token_wakes > 0 || out.stats.unparks_token > 0;
     ev
+}
+
+// =============================================================================================
+// bounded-exhaustive slices (every schedule of a tiny scenario), C15 and C17
+// =============================================================================================
+
+#[derive(Clone, Debug, Default)]
+pub struct ExhaustiveReport {
+    pub scenarios: u64,
+    pub schedules: u64,
+    pub exhausted_all: bool,
+    pub failure: Option<(String, String, serde_json::Value)>,
+}
+
+/// C17: one waiter x one notifier x `conds` conditions, every interleaving.
+pub fn exhaustive_c17(max_conds: u8, cap_per_scenario: usize) -> ExhaustiveReport {
+    let mut rep = ExhaustiveReport { exhausted_all: true, ..Default::default() };
+    for conds in 1..=max_conds {
+        for delay in 0..=1u8 {
+            // notifier orders: in order, reversed
+            let orders: Vec<Vec<u8>> = if conds == 1 { vec![vec![0]] } else { vec![(0..conds).collect(), (0..conds).rev().collect()] };
+            for order in orders {
+                rep.scenarios += 1;
+                let mut fail = None;
+                let (n, done) = crate::dsched::enumerate_schedules(cap_per_scenario, |s| {
+                    let case = C17Case { conds, notifiers: vec![order.clone()], delay_register: delay, schedule: s.clone() };
+                    let (ev, widths) = eval_c17_with_widths(&case);
+                    if let Some((c, d)) = ev.failure {
+                        fail = Some((c, d, serde_json::to_value(&case).unwrap()));
+                        return None;
+                    }
+                    Some(widths)
+                });
+                rep.schedules += n as u64;
+                rep.exhausted_all &= done;
+                if let Some(f) = fail {
+                    rep.failure = Some(f);
+                    rep.exhausted_all = false;
+                    return rep;
+                }
+            }
+        }
+    }
+    rep
+}
+
+pub fn eval_c17_with_widths(case: &C17Case) -> (CaseEval, Vec<u8>) {
+    LAST_WIDTHS.with(|w| w.borrow_mut().clear());
+    let ev = eval_c17(case);
+    (ev, LAST_WIDTHS.with(|w| w.borrow().clone()))
+}
+
+pub fn eval_c15_with_widths(case: &C15Case) -> (CaseEval, Vec<u8>) {
+    LAST_WIDTHS.with(|w| w.borrow_mut().clear());
+    let ev = eval_c15(case);
+    (ev, LAST_WIDTHS.with(|w| w.borrow().clone()))
+}
+
+thread_local! {
+    pub static LAST_WIDTHS: std::cell::RefCell<Vec<u8>> = const { std::cell::RefCell::new(Vec::new()) };
+}
+
+/// C15: two threads with at most two operations each, from a small operation set over n = 3
+/// indices, every interleaving.
+pub fn exhaustive_c15(cap_per_scenario: usize, thorough: bool) -> ExhaustiveReport {
+    let mut rep = ExhaustiveReport { exhausted_all: true, ..Default::default() };
+    let ops = [CursorOp::Claim(2), CursorOp::Rewind(0), CursorOp::Rewind(1), CursorOp::Publish(0), CursorOp::Publish(1), CursorOp::Publish(2), CursorOp::ReadFrontier];
+    let mut programs: Vec<Vec<CursorOp>> = Vec::new();
+    for a in &ops {
+        programs.push(vec![a.clone()]);
+        if thorough {
+            for b in &ops {
+                programs.push(vec![a.clone(), b.clone()]);
+            }
+        }
+    }
+    // a prefix thread makes the first two indices executed so that claims have something to take
+    for (i, p1) in programs.iter().enumerate() {
+        for p2 in programs.iter().skip(i) {
+            let case0 = C15Case { n: 3, setup: vec![CursorOp::Publish(0), CursorOp::Publish(1), CursorOp::Claim(1)], programs: vec![p1.clone(), p2.clone()], schedule: Schedule::default() };
+            rep.scenarios += 1;
+            let mut fail = None;
+            let (n, done) = crate::dsched::enumerate_schedules(cap_per_scenario, |s| {
+                let case = C15Case { schedule: s.clone(), ..case0.clone() };
+                let (ev, widths) = eval_c15_with_widths(&case);
+                if let Some((c, d)) = ev.failure {
+                    fail = Some((c, d, serde_json::to_value(&case).unwrap()));
+                    return None;
+                }
+                Some(widths)
+            });
+            rep.schedules += n as u64;
+            rep.exhausted_all &= done;
+            if let Some(f) = fail {
+                rep.failure = Some(f);
+                rep.exhausted_all = false;
+                return rep;
+            }
+        }
+    }
+    rep
 }
